@@ -4,9 +4,38 @@ from ..core import (Body, callee_name, norm, op_const, op_place, proj_path, as_c
 from ..guards import root_ids, body_of, const_int, def_call
 from . import shared
 
+# module-private functions of the canonicaliser, found by role from the public <Json as DataInterchange>::canonicalize
+# (resolve_names); the defaults are only what they are called today
 WRITE = "interchange::cjson::Value::write"
 CONVERT = "interchange::cjson::convert"
 CANON_PRIV = "interchange::cjson::canonicalize"
+
+
+def resolve_names(ctx):
+    """CONVERT: the local function reachable from the public canonicalize that takes a &serde_json::Value and returns
+    Result<the canonical tree type, _>; WRITE: the local method taking (&tree, &mut Vec<u8>); CANON_PRIV: the local function
+    whose region calls both and which the public trait method calls."""
+    global WRITE, CONVERT, CANON_PRIV
+    fx, cg = ctx.fx, ctx.cg
+    pub = [fx.fns[m["key"]] for im in fx.impls if (im.get("trait") or "").endswith("DataInterchange") and im["self_ty"].endswith("cjson::Json")
+           for m in im["methods"] if m["name"] == "canonicalize" and m["key"] in fx.fns]
+    if len(pub) != 1:
+        return
+    reach = [fx.fns[k] for k in cg.reachable([pub[0]["key"]]) if fx.fns[k]["kind"] in ("Fn", "AssocFn") and not fx.fns[k].get("exp")]
+    def tys(f):
+        return [f["locals"][i]["ty"] for i in range(1, f["arg_count"] + 1)]
+    conv = [f for f in reach if tys(f) == ["&serde_json::Value"] and f["locals"][0]["ty"].startswith("std::result::Result<interchange::cjson::")
+            and not f.get("impl_trait")]
+    tree_ty = None
+    if len(conv) == 1:
+        CONVERT = conv[0]["path"]
+        tree_ty = conv[0]["locals"][0]["ty"][len("std::result::Result<"):].split(",")[0]
+    wr = [f for f in reach if tree_ty and tys(f) == ["&" + tree_ty, "&mut std::vec::Vec<u8>"]]
+    if len(wr) == 1:
+        WRITE = wr[0]["path"]
+    priv = [f for f in reach if f["key"] != pub[0]["key"] and tys(f) == ["&serde_json::Value"] and "Vec<u8>" in f["locals"][0]["ty"]]
+    if len(priv) == 1:
+        CANON_PRIV = priv[0]["path"]
 
 
 def bytes_const(c):
@@ -365,9 +394,9 @@ def check_convert(ctx, rule_num, rule_obj):
     detail = "no BTreeMap::insert in convert"
     for (i, t) in ins:
         kl = b.trace(t["args"][1])
-        key_from_member = bool(kl) and all("Clone::clone" in lf.via and lf.path[-1:] == (F0,) and
+        key_from_member = bool(kl) and all(lf.path[-1:] == (F0,) and
                                            ((lf.kind == "call" and callee_name(lf.data[1]) in ("serde_json::Map::iter", "std::iter::Iterator::next")) or
-                                            (lf.kind == "param" and lf.data == 1 and "IntoIterator::into_iter" in lf.via)) for lf in kl)
+                                            (lf.kind == "param" and lf.data == 1 and lf.path[-2:-1] == (ELEM,))) for lf in kl)
         for lf in kl:
             if lf.kind == "call" and callee_name(lf.data[1]) == "serde_json::Map::iter":
                 rr = root_ids(b, lf.data[1]["args"][0])
